@@ -13,6 +13,13 @@ inline std::map<std::string, std::vector<Factory>> &registry() {
 template <class G> struct Registrar {
     explicit Registrar(const char *group) {
         registry()[group].push_back([] { return std::unique_ptr<IObj>(new Obj<G>()); });
+        // the weighted classes are also run with inexactly representable weights
+        if (GInfo<G>::kind == KindTag::Weighted)
+            registry()[group].push_back([] {
+                auto *o = new Obj<G>();
+                o->variant = 1;
+                return std::unique_ptr<IObj>(o);
+            });
     }
 };
 } // namespace verif
